@@ -1,14 +1,19 @@
 """
 C02 -- interstitial diffusivity equals the exact long-time diffusivity (structural clauses).
 
-Not decided: the value of the correlation correction (numerical).  Decided:
+Not decided: the value of the correlation correction (numerical).  Decided, on the normal form of the code and with
+locals named by their provenance (engines norm / prov: temporaries, local names, loop style do not matter):
   * exchange: the symmetrised rate (Interstitial.symmratelist and its Green-function sibling SymmRates) is invariant
     under swapping the endpoints of the jump; the plain rate depends on the initial site only;
-  * siblings: the statements that assemble the symmetrised rate matrix, the bias vector and the uncorrelated
-    diffusivity are identical (after canonicalisation) in diffusivity / elastodiffusion / losstensors, their loops zip
-    the jump network with the rate lists in the same order, and the correlation correction is the same formula in
-    diffusivity and elastodiffusion; the rate and escape-rate formulas of the Green-function calculator equal the
-    interstitial calculator's after renaming;
+  * siblings: the Green-function rate formulas equal the interstitial calculator's once site indices are mapped to
+    Wyckoff indices; the accumulation statements that build the rate matrix, the bias vector and the uncorrelated
+    diffusivity from (jump network, ratelist, symmratelist, siteprob) are the same in diffusivity / elastodiffusion /
+    losstensors;
+  * roles: the off-diagonal rate-matrix element receives +symmetrised rate, the diagonal receives -escape rate of the
+    initial site; the bias and the bare diffusivity are built from the plain rate, the displacement and the site
+    probability of the initial site;
+  * the correlation correction np.dot(np.dot(VV, bias_v), gamma_v) with gamma_v = bias_solver(omega_v, bias_v) is
+    the same expression in diffusivity and elastodiffusion, enters with a + sign and reaches every return;
   * the two bias-solver branches are both assigned, selected by the invertibility flag, pseudo-inverse on the
     non-invertible branch, same sign, no absolute tolerance;
   * the anchored routines are dimension-generic.
@@ -16,12 +21,18 @@ Not decided: the value of the correlation correction (numerical).  Decided:
 import ast
 
 from ..model import AnalysisError, dotted, unparse, walk_local
-from ..engines import exchange
-from ..engines.linform import canon, rename, swap_sigma
+from ..engines import exchange, shape
+from ..engines.prov import Prov
+from ..engines.linform import canon, swap_sigma
 from ._common import dim_generic
 from .C04 import _solver
 
-ASSEMBLY_ROOTS = ('omega_ij', 'bias_i', 'D0')
+I_ = 'self.jumpnetwork[_][_][0][0]'
+J_ = 'self.jumpnetwork[_][_][0][1]'
+DX_ = 'self.jumpnetwork[_][_][1]'
+RATE_ = 'self.ratelist(pre, betaene, preT, betaeneT)[_][_]'
+SYMM_ = 'self.symmratelist(pre, betaene, preT, betaeneT)[_][_]'
+RHO_ = 'self.siteprob(pre, betaene)'
 
 
 def run(model, rep, tier):
@@ -29,13 +40,45 @@ def run(model, rep, tier):
     rep.not_decided = 'the numerical value of the diffusivity and of the bias-correction term'
     rep.rule('exchange-symmetric', 'symmetrised rate element is invariant under swapping the jump endpoints')
     rep.rule('initial-site-only', 'the (unsymmetrised) rate of a jump i->j depends on site i, not on j')
-    rep.rule('sibling-assembly', 'assembly statements agree between diffusivity / elastodiffusion / losstensors')
-    rep.rule('sibling-formula', 'Green-function rate formulas equal the interstitial ones after renaming')
+    rep.rule('sibling-assembly', 'accumulation statements fed by (jump network, rates, symmetrised rates, site probability) agree '
+                                 'between diffusivity / elastodiffusion / losstensors')
+    rep.rule('assembly-roles', 'rate matrix: [i,j] += symmetrised rate, [i,i] -= plain rate; bias and bare diffusivity use the plain rate of the initial site')
+    rep.rule('correction-term', 'correlation correction is the same expression in diffusivity and elastodiffusion, added with +, and reaches every return')
+    rep.rule('sibling-formula', 'Green-function rate formulas equal the interstitial ones after mapping sites to Wyckoff sets')
     rep.rule('scale-homogeneous-solver', 'bias solvers: both branches, right selection, same sign, no absolute tolerance')
     oc = model.mod('OnsagerCalc')
     ci = model.cls('OnsagerCalc', 'Interstitial')
     gf = model.mod('GFcalc')
-    # ---- exchange
+    _rate_formulas(model, rep, oc, ci, gf)
+    _assembly(model, rep, oc, ci)
+    _correction(model, rep, oc, ci)
+    _solver(model, rep)
+    dim_generic(model, rep, [('OnsagerCalc', 'Interstitial.'), ('GFcalc', 'GFCrystalcalc.Diffusivity'), ('crystal', 'Crystal.FullVectorBasis')],
+                min_functions=15)
+
+
+# ---------------------------------------------------------------- rate formulas
+def _rate_element(fn):
+    """innermost element expression of the (nested) comprehension returned, and its endpoint pair names."""
+    rets = [n for n in walk_local(fn) if isinstance(n, ast.Return)]
+    if len(rets) != 1:
+        raise AnalysisError('%s: single return expected' % fn.name)
+    e = rets[0].value
+    if isinstance(e, ast.Call) and e.args:
+        e = e.args[0]
+    pair = None
+    while isinstance(e, (ast.ListComp, ast.GeneratorExp)):
+        for g in e.generators:
+            for t in ast.walk(g.target):
+                if isinstance(t, ast.Tuple) and len(t.elts) == 2 and all(isinstance(x, ast.Name) for x in t.elts):
+                    pair = pair or (t.elts[0].id, t.elts[1].id)
+        e = e.elt
+    if pair is None:
+        raise AnalysisError('%s: endpoint pair not found in the returned comprehension' % fn.name)
+    return e, pair
+
+
+def _rate_formulas(model, rep, oc, ci, gf):
     sym = ci.methods.get('symmratelist')
     rl = ci.methods.get('ratelist')
     if sym is None or rl is None:
@@ -56,163 +99,248 @@ def run(model, rep, tier):
     rep.ob('exchange-symmetric', gf, elt_g, 'GFCrystalcalc.SymmRates element %s under %s<->%s' % (unparse(elt_g), *pair_g), ok,
            '' if ok else 'Green-function symmetrised rate is not symmetric in the two Wyckoff sets', engine='exchange',
            qual='GFCrystalcalc.SymmRates')
-    # ---- sibling formulas across modules
-    sig = {pair_g[0]: pair_s[0], pair_g[1]: pair_s[1], 'betaene': 'siteene', 'pre': 'sitepre'}
-    same = canon(rename(elt_g, sig)) == canon(elt_s)
-    rep.ob('sibling-formula', gf, elt_g, 'SymmRates element == symmratelist element after (%s)' % ', '.join('%s->%s' % kv for kv in sig.items()),
-           same, '' if same else 'the two calculators symmetrise the rate differently: %s vs %s' % (canon(rename(elt_g, sig)), canon(elt_s)),
-           engine='siblings', qual='GFCrystalcalc.SymmRates')
+    # sibling formulas: same expression once the site index is mapped to its Wyckoff set
+    ts = Prov(sym).text(elt_s)
+    tg = Prov(gsym).text(elt_g)
+    ts_w = ts.replace('self.invmap[%s]' % I_, 'W0').replace('self.invmap[%s]' % J_, 'W1')
+    tg_w = tg.replace('self.jumppairs[_][0]', 'W0').replace('self.jumppairs[_][1]', 'W1')
+    same = ts_w == tg_w and 'W0' in ts_w and 'W1' in ts_w
+    rep.ob('sibling-formula', gf, elt_g, 'SymmRates element == symmratelist element (site -> Wyckoff set)', same,
+           '' if same else 'the two calculators symmetrise the rate differently: %s vs %s' % (tg_w, ts_w), engine='siblings',
+           qual='GFCrystalcalc.SymmRates')
+    # escape rate of the Green function calculator: sum over jump types of multiplicity * plain rate
     setr = model.func('GFcalc', 'GFCrystalcalc.SetRates')
     esc = None
     for n in walk_local(setr):
         if isinstance(n, ast.GeneratorExp) and isinstance(getattr(n, '_parent', None), ast.Call) and dotted(n._parent.func) == 'sum' \
-                and any(isinstance(c, ast.Call) and (dotted(c.func) or '').endswith('exp') for c in ast.walk(n.elt)) \
-                and isinstance(n.generators[0].target, ast.Tuple):
+                and any(isinstance(c, ast.Call) and (dotted(c.func) or '').endswith('exp') for c in ast.walk(n.elt)):
             esc = n
     if esc is None:
-        raise AnalysisError('GFCrystalcalc.SetRates: escape-rate sum not found')
-    # self.SEjumps[i, J] * pretrans / pre[wi] * np.exp(betaene[wi] - BET)  vs  pT * np.exp(siteene[i] - beT) / sitepre[i]
-    tnames = [unparse(t) for t in esc.generators[0].target.elts]
-    sig2 = {tnames[1]: 'pT', tnames[2]: 'beT', 'betaene': 'siteene', 'pre': 'sitepre', 'wi': pair_r[0]}
-    body = esc.elt
-    # strip the multiplicity factor
-    mult = [x for x in ast.walk(body) if isinstance(x, ast.Subscript) and unparse(x.value) == 'self.SEjumps']
-    stripped = unparse(body).replace(unparse(mult[0]) + ' * ', '') if mult else unparse(body)
-    g2 = canon(rename(ast.parse(stripped, mode='eval').body, sig2))
-    same = g2 == canon(elt_r)
-    rep.ob('sibling-formula', gf, esc, 'SetRates escape term (without multiplicity) == ratelist element', same,
-           '' if same else 'escape rates differ between the calculators: %s vs %s' % (g2, canon(elt_r)), engine='siblings',
+        raise AnalysisError('GFCrystalcalc.SetRates: escape-rate sum (sum of a generator containing exp) not found')
+    mult = [x for x in ast.walk(esc.elt) if isinstance(x, ast.Subscript) and unparse(x.value) == 'self.SEjumps']
+    if len(mult) != 1:
+        raise AnalysisError('GFCrystalcalc.SetRates: multiplicity factor self.SEjumps[...] of the escape sum not found')
+    pg = Prov(setr)
+    from ..engines.prov import alpha_comprehensions
+    g_elt = pg.expand(esc.elt, keep_comp=False)
+    g_mult = pg.expand(mult[0], keep_comp=False)
+    r_elt = _replace_text(Prov(rl).expand(elt_r, keep_comp=False), I_, ast.Name(id='_', ctx=ast.Load()))
+    te = canon(ast.fix_missing_locations(g_elt))
+    expected = canon(ast.fix_missing_locations(ast.BinOp(left=g_mult, op=ast.Mult(), right=r_elt)))
+    same = te == expected
+    rep.ob('sibling-formula', gf, esc, 'SetRates escape term == multiplicity * ratelist element (site -> its Wyckoff set)', same,
+           '' if same else 'escape rates differ between the calculators: %s vs %s' % (te, expected), engine='siblings',
            qual='GFCrystalcalc.SetRates')
-    # ---- sibling assembly
+
+
+def _replace_text(tree, text, new):
+    """replace every sub-expression whose source text is ``text``."""
+    class T(ast.NodeTransformer):
+        def generic_visit(self, n):
+            if isinstance(n, ast.expr) and unparse(n) == text:
+                return new
+            return super().generic_visit(n)
+    return T().visit(tree)
+
+
+def _subscript_texts(text, prefix):
+    out = []
+    k = text.find(prefix)
+    while k >= 0:
+        depth, j = 0, k + len(prefix) - 1
+        while j < len(text):
+            if text[j] == '[': depth += 1
+            elif text[j] == ']':
+                depth -= 1
+                if depth == 0:
+                    break
+            j += 1
+        out.append(text[k + len(prefix):j])
+        k = text.find(prefix, k + 1)
+    return out
+
+
+def _times(a, b):
+    return '%s*%s' % (a, b)
+
+
+def _factors(t):
+    """top-level factors of a canonical product '[a*b*c]' (canon writes products in brackets, sorted)."""
+    t = t.strip()
+    if t.startswith('[') and t.endswith(']'):
+        t = t[1:-1]
+    out, depth, cur = [], 0, ''
+    for ch in t:
+        if ch in '([{': depth += 1
+        if ch in ')]}': depth -= 1
+        if ch == '*' and depth == 0:
+            out.append(cur)
+            cur = ''
+        else:
+            cur += ch
+    out.append(cur)
+    return sorted(x.strip() for x in out)
+
+
+def _same_product(whole, a, b):
+    return _factors(whole) == sorted(_factors(a) + _factors(b))
+
+
+# ---------------------------------------------------------------- assembly
+def _groups(fn):
+    """accumulation statements (augmented assignments inside the double loop over the jump network) grouped by
+    accumulator, each as provenance text with the accumulator abstracted: {name: frozenset(texts)}."""
+    P = Prov(fn)
+    out = {}
+    nodes = {}
+    for n in walk_local(fn):
+        if isinstance(n, ast.AugAssign):
+            r = shape.root(n.target)
+            if not isinstance(r, ast.Name):
+                continue
+            t = P.stmt_text(n, acc=True)
+            if 'self.jumpnetwork[_][_]' not in t:
+                continue
+            out.setdefault(r.id, set()).add(t)
+            nodes.setdefault(r.id, n)
+    return {k: frozenset(v) for k, v in out.items()}, nodes, P
+
+
+SHARED_INPUTS = ('self.jumpnetwork', 'self.ratelist(', 'self.symmratelist(', 'self.siteprob(', 'np.', '_ACC', '_pos', 'self.invmap')
+
+
+def _shared_only(texts):
+    """the group reads only the inputs common to the three routines (no derivative / dipole data)."""
+    import re
+    for t in texts:
+        for tok in re.findall(r'[A-Za-z_][A-Za-z_0-9\.]*', t):
+            if tok in ('_', 'Add', 'Sub', 'Mult') or tok.startswith(('np.', '_ACC', '_pos')):
+                continue
+            if tok in ('self.jumpnetwork', 'self.ratelist', 'self.symmratelist', 'self.siteprob', 'self.invmap', 'pre', 'betaene', 'preT', 'betaeneT'):
+                continue
+            return False
+    return True
+
+
+def _assembly(model, rep, oc, ci):
     funs = {}
     for name in ('diffusivity', 'elastodiffusion', 'losstensors'):
         fn = ci.methods.get(name)
         if fn is None:
             raise AnalysisError('anchor vanished: Interstitial.%s' % name)
         funs[name] = fn
-    per = {}
-    for name, fn in funs.items():
-        d = {}
-        for n in walk_local(fn):
-            if isinstance(n, ast.AugAssign):
-                root = n.target
-                while isinstance(root, ast.Subscript):
-                    root = root.value
-                if isinstance(root, ast.Name) and root.id in ASSEMBLY_ROOTS and _in_double_loop(n, fn):
-                    d.setdefault(root.id, set()).update(exchange.stmt_canon(n))
-        per[name] = d
-    ref = per['diffusivity']
+    G = {name: _groups(fn) for name, fn in funs.items()}
+    ref = {k: v for k, v in G['diffusivity'][0].items() if _shared_only(v)}
+    if len(ref) < 3:
+        raise AnalysisError('Interstitial.diffusivity: rate matrix / bias / bare diffusivity accumulations not recognised (%d found)' % len(ref))
+    refsets = set(ref.values())
     npairs = 0
-    for root in ASSEMBLY_ROOTS:
-        if root not in ref:
-            raise AnalysisError('Interstitial.diffusivity: assembly of %s not found' % root)
-        for other in ('elastodiffusion', 'losstensors'):
-            if root not in per[other]:
+    for other in ('elastodiffusion', 'losstensors'):
+        groups, nodes, _ = G[other]
+        for acc, texts in sorted(groups.items()):
+            if not _shared_only(texts):
                 continue
             npairs += 1
-            ok = per[other][root] == ref[root]
-            rep.ob('sibling-assembly', oc, funs[other], '%s: statements updating %s equal those of diffusivity (%d)' % (other, root, len(ref[root])),
-                   ok, '' if ok else 'differs: only in diffusivity %s ; only in %s %s' % (sorted(ref[root] - per[other][root]), other,
-                                                                                     sorted(per[other][root] - ref[root])),
-                   engine='siblings', qual='Interstitial.' + other)
+            ok = texts in refsets
+            rep.ob('sibling-assembly', oc, nodes[acc], '%s: accumulation into %s (%d statement(s)) equals one of diffusivity' % (other, acc, len(texts)),
+                   ok, '' if ok else 'no accumulator of diffusivity is built like this: %s' % sorted(texts), engine='siblings',
+                   qual='Interstitial.' + other)
     rep.floor('sibling assembly comparisons', npairs, 4)
-    # loop headers: zip(self.jumpnetwork, ratelist, symmratelist, ...) and zip(transitionset, rates, symmrates, ...)
-    heads = {}
+    # roles in the reference
+    nroles = 0
+    for acc, texts in sorted(ref.items()):
+        node = G['diffusivity'][1][acc]
+        offdiag = [t for t in texts if t.startswith('_ACC[(%s, %s,)]' % (I_, J_))]
+        diag = [t for t in texts if t.startswith('_ACC[(%s, %s,)]' % (I_, I_))]
+        if offdiag or diag:
+            nroles += 1
+            ok = len(offdiag) == 1 and len(diag) == 1 and len(texts) == 2 \
+                and ' Add= ' in offdiag[0] and SYMM_ in offdiag[0] and RATE_ not in offdiag[0] \
+                and ' Sub= ' in diag[0] and RATE_ in diag[0] and SYMM_ not in diag[0]
+            rep.ob('assembly-roles', oc, node, 'rate matrix %s: %s' % (acc, sorted(texts)), ok,
+                   '' if ok else 'expected [i,j] += symmetrised rate and [i,i] -= plain rate of the initial site', engine='siblings',
+                   qual='Interstitial.diffusivity')
+        elif all(t.startswith('_ACC[%s] Add= ' % I_) for t in texts):
+            nroles += 1
+            ok = all(RATE_ in t and DX_ in t and RHO_ in t and SYMM_ not in t and J_ not in t for t in texts)
+            rep.ob('assembly-roles', oc, node, 'bias vector %s: %s' % (acc, sorted(texts)), ok,
+                   '' if ok else 'the bias of site i is built from the plain rate, the displacement and the probability of site i only',
+                   engine='siblings', qual='Interstitial.diffusivity')
+        elif all(t.startswith('_ACC Add= ') for t in texts):
+            nroles += 1
+            ok = all(RATE_ in t and t.count(DX_) >= 2 and (RHO_ + '[' + I_ + ']') in t and SYMM_ not in t and J_ not in t for t in texts)
+            rep.ob('assembly-roles', oc, node, 'bare diffusivity %s: %s' % (acc, sorted(texts)), ok,
+                   '' if ok else 'the uncorrelated term is built from dx dx, the plain rate and the probability of the initial site',
+                   engine='siblings', qual='Interstitial.diffusivity')
+    rep.floor('assembly roles recognised in diffusivity', nroles, 3)
+    # the rate lists are prepared by the same calls with the caller's own arguments in order
     for name, fn in funs.items():
-        loops = [n for n in walk_local(fn) if isinstance(n, ast.For) and isinstance(n.iter, ast.Call) and dotted(n.iter.func) == 'zip'
-                 and n.iter.args and unparse(n.iter.args[0]) == 'self.jumpnetwork']
-        if len(loops) != 1:
-            raise AnalysisError('Interstitial.%s: main loop over the jump network not found' % name)
-        outer = loops[0]
-        inner = [n for n in outer.body if isinstance(n, ast.For)]
-        if len(inner) != 1:
-            raise AnalysisError('Interstitial.%s: inner loop not found' % name)
-        heads[name] = (_zip_pairs(outer)[:3], _zip_pairs(inner[0])[:3])
-    for other in ('elastodiffusion', 'losstensors'):
-        ok = heads[other] == heads['diffusivity']
-        rep.ob('sibling-assembly', oc, funs[other], '%s: loop bindings %s' % (other, heads[other]), ok,
-               '' if ok else 'rates and symmetrised rates are bound differently than in diffusivity %s' % (heads['diffusivity'],),
-               engine='siblings', qual='Interstitial.' + other)
-    want = ([('transitionset', 'self.jumpnetwork'), ('rates', 'ratelist'), ('symmrates', 'symmratelist')])
-    okb = [v for _, v in heads['diffusivity'][0]] == ['self.jumpnetwork', 'ratelist', 'symmratelist']
-    # inner loop must draw rate from the variable bound to ratelist and symmrate from the one bound to symmratelist
-    o, i = heads['diffusivity']
-    okb = okb and [v for _, v in i] == [o[0][0], o[1][0], o[2][0]]
-    rep.ob('sibling-assembly', oc, funs['diffusivity'], 'diffusivity: outer %s inner %s' % (o, i), okb,
-           '' if okb else 'plain and symmetrised rates are exchanged in the loop bindings', engine='siblings',
-           qual='Interstitial.diffusivity')
-    # preamble: rho / sqrtrho / ratelist / symmratelist
-    pre = {}
-    for name, fn in funs.items():
-        d = {}
-        for st in fn.body:
-            if isinstance(st, ast.Assign) and isinstance(st.targets[0], ast.Name) and st.targets[0].id in ('rho', 'sqrtrho', 'ratelist', 'symmratelist'):
-                d[st.targets[0].id] = canon(st.value)
-        pre[name] = d
-    for other in ('elastodiffusion', 'losstensors'):
-        ok = pre[other] == pre['diffusivity'] and len(pre[other]) == 4
-        rep.ob('sibling-assembly', oc, funs[other], '%s: rho/sqrtrho/ratelist/symmratelist preamble equals diffusivity' % other, ok,
-               '' if ok else 'probabilities or rates are prepared differently: %s' % pre[other], engine='siblings',
-               qual='Interstitial.' + other)
-    # correction term
-    corr = {}
+        for meth in ('siteprob', 'ratelist', 'symmratelist'):
+            calls = [n for n in walk_local(fn) if isinstance(n, ast.Call) and unparse(n.func) == 'self.' + meth]
+            if not calls:
+                raise AnalysisError('Interstitial.%s: call of self.%s not found' % (name, meth))
+            want = [a.arg for a in ci.methods[meth].args.args[1:]]
+            for c in calls:
+                got = [unparse(a) for a in c.args] + ['%s=%s' % (k.arg, unparse(k.value)) for k in c.keywords]
+                ok = got == want
+                rep.ob('sibling-assembly', oc, c, '%s: self.%s(%s)' % (name, meth, ', '.join(got)), ok,
+                       '' if ok else 'arguments are not the caller\'s (%s) in order' % ', '.join(want), engine='siblings',
+                       qual='Interstitial.' + name)
+
+
+# ---------------------------------------------------------------- correction term
+def _correction(model, rep, oc, ci):
+    found = {}
     for name in ('diffusivity', 'elastodiffusion'):
-        for n in walk_local(funs[name]):
-            if isinstance(n, (ast.Assign, ast.AugAssign)) and 'self.VV, bias_v), gamma_v' in unparse(n.value).replace('\n', ''):
-                tgt = unparse(n.targets[0] if isinstance(n, ast.Assign) else n.target)
-                if tgt in ('Dcorrection', 'D0'):
-                    sign = '-' if isinstance(n, ast.AugAssign) and isinstance(n.op, ast.Sub) else '+'
-                    corr[name] = sign + canon(n.value)
-        gam = [canon(n.value) for n in walk_local(funs[name]) if isinstance(n, ast.Assign) and unparse(n.targets[0]) == 'gamma_v']
-        corr[name + ':gamma'] = gam
-    ok = corr.get('diffusivity') is not None and corr.get('diffusivity') == corr.get('elastodiffusion') \
-        and corr['diffusivity:gamma'] == corr['elastodiffusion:gamma'] == ['self.bias_solver(omega_v, bias_v)']
-    rep.ob('sibling-assembly', oc, funs['elastodiffusion'], 'correlation correction: %s with gamma_v = %s' % (corr.get('diffusivity'), corr['diffusivity:gamma']),
-           ok, '' if ok else 'the bias correction is a different formula in elastodiffusion: %s' % corr.get('elastodiffusion'),
-           engine='siblings', qual='Interstitial.elastodiffusion')
-    # the corrected diffusivity is returned on both CalcDeriv branches
-    rets = [unparse(n.value) for n in walk_local(funs['diffusivity']) if isinstance(n, ast.Return)]
-    ok = len(rets) == 2 and all(r.startswith('D0 + Dcorrection') or r.startswith('(D0 + Dcorrection') for r in rets)
-    rep.ob('sibling-assembly', oc, funs['diffusivity'], 'diffusivity returns D0 + Dcorrection on both CalcDeriv branches: %s' % rets, ok,
-           '' if ok else 'the correlation correction is dropped on one branch', engine='siblings', qual='Interstitial.diffusivity')
-    _solver(model, rep)
-    dim_generic(model, rep, [('OnsagerCalc', 'Interstitial.'), ('GFcalc', 'GFCrystalcalc.Diffusivity'), ('crystal', 'Crystal.FullVectorBasis')],
-                min_functions=15)
+        fn = ci.methods[name]
+        P = Prov(fn)
+        cands = []
+        for n in walk_local(fn):
+            if isinstance(n, (ast.Assign, ast.AugAssign)):
+                t = P.text(n.value, acc=True)
+                if t == 'np.dot(np.dot(self.VV, _ACC), self.bias_solver(_ACC, _ACC))':
+                    cands.append(n)
+        if len(cands) != 1:
+            raise AnalysisError('Interstitial.%s: correlation correction np.dot(np.dot(self.VV, bias), bias_solver(omega, bias)) not found '
+                                '(%d candidates)' % (name, len(cands)))
+        st = cands[0]
+        # the vector contracted with VV is the one handed to the solver
+        inner = st.value.args[0].args[1] if isinstance(st.value, ast.Call) and st.value.args and isinstance(st.value.args[0], ast.Call) \
+            and len(st.value.args[0].args) == 2 else None
+        solver = [c for c in ast.walk(P.expand(st.value)) if isinstance(c, ast.Call) and unparse(c.func) == 'self.bias_solver']
+        okv = inner is not None and solver and len(solver[0].args) == 2 and unparse(solver[0].args[1]) == unparse(inner)
+        rep.ob('correction-term', oc, st, '%s: %s' % (name, unparse(st)[:110]), bool(okv),
+               '' if okv else 'the bias vector contracted with VV is not the one passed to the bias solver', engine='siblings',
+               qual='Interstitial.' + name)
+        # sign and reachability: added with + to what every return delivers
+        if isinstance(st, ast.AugAssign):
+            sign_ok = isinstance(st.op, ast.Add)
+            carrier = shape.root(st.target).id
+        else:
+            sign_ok = True
+            carrier = shape.root(st.targets[0]).id
+        rets = [r for r in walk_local(fn) if isinstance(r, ast.Return) and r.value is not None]
+        reach = []
+        for r in rets:
+            first = r.value.elts[0] if isinstance(r.value, ast.Tuple) and r.value.elts else r.value
+            reach.append(_positive_in(first, carrier))
+        ok = sign_ok and rets and all(reach)
+        rep.ob('correction-term', oc, st, '%s: correction carried by %s reaches %d return(s) with a + sign' % (name, carrier, len(rets)), bool(ok),
+               '' if ok else 'the correlation correction is subtracted, or dropped on a return path', engine='siblings',
+               qual='Interstitial.' + name)
+        found[name] = st
+    return found
 
 
-def _rate_element(fn):
-    """innermost element expression of the nested list comprehension returned, and its (i, j) pair names."""
-    rets = [n for n in walk_local(fn) if isinstance(n, ast.Return)]
-    if len(rets) != 1:
-        raise AnalysisError('%s: single return expected' % fn.name)
-    e = rets[0].value
-    if isinstance(e, ast.Call) and e.args:
-        e = e.args[0]
-    pair = None
-    while isinstance(e, (ast.ListComp, ast.GeneratorExp)):
-        for g in e.generators:
-            for t in ast.walk(g.target):
-                if isinstance(t, ast.Tuple) and len(t.elts) == 2 and all(isinstance(x, ast.Name) for x in t.elts):
-                    pair = pair or (t.elts[0].id, t.elts[1].id)
-        e = e.elt
-    if pair is None:
-        raise AnalysisError('%s: endpoint pair not found' % fn.name)
-    return e, pair
-
-
-def _in_double_loop(n, fn):
-    depth = 0
-    p = getattr(n, '_parent', None)
-    while p is not None and p is not fn:
-        if isinstance(p, ast.For):
-            depth += 1
-        p = getattr(p, '_parent', None)
-    return depth >= 2
-
-
-def _zip_pairs(loop):
-    ts = loop.target.elts if isinstance(loop.target, ast.Tuple) else [loop.target]
-    return [(unparse(t), unparse(a)) for t, a in zip(ts, loop.iter.args)]
+def _positive_in(expr, name):
+    """``name`` occurs in ``expr`` as a positive summand (or is the expression)."""
+    if isinstance(expr, ast.Name):
+        return expr.id == name
+    if isinstance(expr, ast.BinOp) and isinstance(expr.op, ast.Add):
+        return _positive_in(expr.left, name) or _positive_in(expr.right, name)
+    if isinstance(expr, ast.BinOp) and isinstance(expr.op, ast.Sub):
+        return _positive_in(expr.left, name)
+    return False
 
 
 OC = 'onsager/OnsagerCalc.py'
@@ -223,12 +351,18 @@ BREAKERS = [
     (OC, "return [[pT * np.exp(siteene[i] - beT) / sitepre[i]", "return [[pT * np.exp(siteene[j] - beT) / sitepre[j]", 'initial-site-only'),
     (OC, "        for transitionset, rates, symmrates in zip(self.jumpnetwork, ratelist, symmratelist):",
      "        for transitionset, rates, symmrates in zip(self.jumpnetwork, symmratelist, ratelist):", 'sibling-assembly'),
+    (OC, "        for transitionset, rates, symmrates, bET in zip(self.jumpnetwork, ratelist, symmratelist, betaeneT):",
+     "        for transitionset, symmrates, rates, bET in zip(self.jumpnetwork, ratelist, symmratelist, betaeneT):", 'assembly-roles'),
+    (OC, "                omega_ij[i, i] -= rate\n                domega_ij[i, j] += symmrate * (bET", "                omega_ij[j, j] -= rate\n                domega_ij[i, j] += symmrate * (bET", 'assembly-roles'),
     (OC, "            self.bias_solver = lambda omega, b: -solve(-omega, b, assume_a='pos')", "            self.bias_solver = lambda omega, b: solve(-omega, b, assume_a='pos')",
      'scale-homogeneous-solver'),
     ('onsager/GFcalc.py', "pT * np.exp(0.5 * betaene[w0] + 0.5 * betaene[w1] - beT)", "pT * np.exp(betaene[w0] - beT)", 'exchange-symmetric'),
     ('onsager/GFcalc.py', "pretrans / pre[wi] * np.exp(betaene[wi] - BET)", "pretrans * np.exp(betaene[wi] - BET)", 'sibling-formula'),
-    (OC, "            D0 += np.dot(np.dot(self.VV, bias_v), gamma_v)", "            D0 -= np.dot(np.dot(self.VV, bias_v), gamma_v)", None),
+    (OC, "            D0 += np.dot(np.dot(self.VV, bias_v), gamma_v)", "            D0 -= np.dot(np.dot(self.VV, bias_v), gamma_v)", 'correction-term'),
+    (OC, "        if not CalcDeriv:\n            return D0 + Dcorrection", "        if not CalcDeriv:\n            return D0", 'correction-term'),
 ]
 NEUTRALS = [
     (OC, "                bias_i[i] += sqrtrho[i] * rate * dx\n                biasP_i", "                bias_i[i] += rate * dx * sqrtrho[i]\n                biasP_i"),
+    (OC, "                D0 += 0.5 * np.outer(dx, dx) * rho[i] * rate\n                Dp +=",
+     "                dxdx = np.outer(dx, dx)\n                D0 += 0.5 * dxdx * rho[i] * rate\n                Dp +="),
 ]
